@@ -118,6 +118,22 @@ type faultState struct {
 	commits int
 	failAt  int
 	killAt  int
+	// storage-operation boundaries: one per statement execution and per commit
+	ops       int
+	intrudeAt int
+	intruder  func()
+}
+
+func (fs *faultState) op() {
+	if fs == nil {
+		return
+	}
+	fs.ops++
+	if fs.intruder != nil && fs.ops == fs.intrudeAt {
+		f := fs.intruder
+		fs.intruder = nil
+		f()
+	}
 }
 
 var (
@@ -146,6 +162,16 @@ type wconn struct {
 	fs *faultState
 }
 
+func (c *wconn) ExecContext(ctx context.Context, query string, args []driver.NamedValue) (driver.Result, error) {
+	c.fs.op()
+	return c.SQLiteConn.ExecContext(ctx, query, args)
+}
+
+func (c *wconn) QueryContext(ctx context.Context, query string, args []driver.NamedValue) (driver.Rows, error) {
+	c.fs.op()
+	return c.SQLiteConn.QueryContext(ctx, query, args)
+}
+
 func (c *wconn) Begin() (driver.Tx, error) {
 	tx, err := c.SQLiteConn.Begin()
 	if err != nil {
@@ -171,6 +197,7 @@ func (t *wtx) Commit() error {
 	if t.fs == nil {
 		return t.Tx.Commit()
 	}
+	t.fs.op()
 	t.fs.commits++
 	if t.fs.failAt > 0 && t.fs.commits == t.fs.failAt {
 		_ = t.Tx.Rollback()
@@ -232,6 +259,18 @@ func Reopen(db *sqlx.DB) *sqlx.DB {
 	fs.failAt, fs.killAt = 0, 0
 	return open(name)
 }
+
+// Intrude arms an intruder: right before the n-th storage operation (statement execution or commit)
+// from now on this database, f runs once - another request being served in the meantime. f must
+// only read.
+func Intrude(db *sqlx.DB, n int, f func()) {
+	fs := faults[fileOf[db]]
+	fs.intrudeAt = fs.ops + n
+	fs.intruder = f
+}
+
+// OpCount returns the number of storage operations so far.
+func OpCount(db *sqlx.DB) int { return faults[fileOf[db]].ops }
 
 // WriteCount returns how many write transactions were attempted to commit so far.
 func WriteCount(db *sqlx.DB) int { return faults[fileOf[db]].commits }
